@@ -164,6 +164,10 @@ def make_items(chk: Check, nops: list, npool: int, thorough: bool, hists: list, 
                                   "programs": [[("wbad", ci, vi, j), ("w", ci, 1 - vi, 0), ("w", ci, vi, 0),
                                                 ("r", ci, vi, 0)]]})
             items.append({"id": f"eq{ci}a", "programs": [[("w", ci, 0, 0), ("w", ci, 1, 0), ("w", ci, 0, 0)]]})
+        # a derived entity class and its base, in both creation orders; the same-named twins
+        for a, b in ((npool - 4, npool - 3), (npool - 3, npool - 4), (npool - 2, npool - 1), (npool - 1, npool - 2)):
+            items.append({"id": f"inh{a}_{b}", "programs": [[("w", a, 0, 0), ("w", b, 0, 0), ("r", a, 1, 0), ("r", b, 1, 0),
+                                                             ("w", b, 1, 0), ("w", a, 1, 0)]]})
         return items
     # (f) warm caches, two threads in the SAME cached reader / writer with different values: thread 0 is
     # preempted after k switch points of its call, thread 1 runs its whole call, thread 0 resumes
